@@ -79,6 +79,10 @@ Section Sn1D.
       (Te, (q_mw P - q_ms P * (q_kf P / q_Ms P) / (q_Tm P - Te)) / (q_mw P + q_ms P))
     else (Tn, zero).
 
+  (* the whole field at the nucleation instant: every grid point on its own (adiabatic) *)
+  Definition nuc_step (T : list A) : list A * list A :=
+    (map (fun x => fst (nuc_point x)) T, map (fun x => snd (nuc_point x)) T).
+
   (* ---- solidification stage ----------------------------------------------------------------------- *)
   Definition cp_of (w : A) : A := q_cps P * q_sf P + q_cpi P * w + q_cpw P * (one - q_sf P - w).
   Definition lam_of (w : A) : A := q_lami P * w + q_lamw P * (one - w).
